@@ -30,10 +30,11 @@ theorem Inv.of_same {src : Bytes} {B : Int} {s s' : St} (hi : Inv src B s) (hn :
 theorem bpContinue_inv {src : Bytes} {B : Int} {s s' : St} {st : PState} (bp : BP) (node : Nat) (hi : Inv src B s)
     (c : RCur) (hri : RI src s.r c)
     (hnl : bp ≠ .list ∧ bp ≠ .listItem) (hnp : bp ≠ .paragraph) (hk : (nd s node).kind = bp.kind)
-    (hpc : s'.pc = s.pc) (hn : NodesOK src s') (e : bpContinue bp node s = .ok (st, s')) : Inv src B s' := by
+    (hpc : s'.pc = s.pc) (hn : NodesOK src s') (e : bpContinue bp node s = .ok (st, s'))
+    (hx : isRaw bp.kind = true → OrdFrom 0 (nd s' node).lines ∧ Below B (nd s' node).lines) : Inv src B s' := by
   have same : s' = s → Inv src B s' := fun h => by rw [h]; exact hi
   have raw : isRaw bp.kind = true → FrN node (bpContinue bp node) → Inv src B s' := fun hr hf =>
-    hi.onlyN (hf.h s st s' e) (by rw [hk]; exact hr) hpc hn
+    hi.onlyN (hf.h s st s' e) (by rw [hk]; exact hr) hpc hn (hx hr)
   cases bp
   case setext => exact same (by have e' : (pure stClose : M PState) s = .ok (st, s') := e; exact (opure_ok e').2)
   case thematic => exact same (by have e' : (pure stClose : M PState) s = .ok (st, s') := e; exact (opure_ok e').2)
@@ -56,6 +57,71 @@ theorem bpContinue_inv {src : Bytes} {B : Int} {s s' : St} {st : PState} (bp : B
   case html => exact raw rfl htmlContinue_frn
   case paragraph => exact absurd rfl hnp
 
+/-- `Continue` of the eight list-free parsers from a clean state, on an open block that is not a Paragraph: the
+    invariant up to the line end; and, when the walk over the line goes on (children, or `Close`), the invariant up to
+    the line start and `PadL` for the cursor -/
+theorem bpContinue_clean {src : Bytes} {Lb : Int} {s s' : St} {c c2 : RCur} {st : PState} (be : Block)
+    (hc1 : Clean src Lb s c) (hp : c.p < src.length) (hkeys : KeysOK s) (hkind : (nd s be.node).kind = be.bp.kind)
+    (hnl : be.bp ≠ .list ∧ be.bp ≠ .listItem) (hnp : be.bp ≠ .paragraph)
+    (h2c : ContPost src be.bp s c st s') (h4 : bpContinue be.bp be.node s = .ok (st, s')) :
+    Inv src (lineEnd src c.p : Int) s' ∧
+      ((st.hasChildren = true ∨ st.cont = false) → Inv src Lb s' ∧ (RI src s'.r c2 → PadL Lb c2)) := by
+  have hr1 := hc1.ri
+  have hle := hc1.le
+  have hpl := hc1.padl
+  have hrc : isRaw be.bp.kind = true → RawC src Lb (lineEnd src c.p : Int) be.node s s' st :=
+    fun hr => bpContinue_rawC be.bp be.node hr hr1 hp hle hpl (fun f hf => (hkeys.fence f hf).2.1) h4
+  have hge := lineEnd_ge src hr1.inRange
+  have h04 : ∀ t ∈ (nd s' be.node).lines, 0 ≤ t.start := fun t ht =>
+    ((nodeOK_nd h2c.nodes be.node).lines t ht).1
+  have hinvE : Inv src (lineEnd src c.p : Int) s' :=
+    bpContinue_inv be.bp be.node hc1.invE c hr1 hnl hnp hkind h2c.pc h2c.nodes h4 (fun hr =>
+      (hrc hr).1.nodeR ((hc1.inv.nrb be.node).2.1 (by rw [hkind]; exact hr)) (by omega) h04)
+  have hleafraw : isRaw be.bp.kind = true → st.hasChildren = false := fun hr => h2c.leaf (by
+    cases hbp : be.bp <;> rw [hbp] at hr <;> first | rfl | exact absurd hr (by decide))
+  refine ⟨hinvE, fun hor => ⟨?_, fun hri4 => ?_⟩⟩
+  · exact bpContinue_inv be.bp be.node hc1.inv c hr1 hnl hnp hkind h2c.pc h2c.nodes h4 (fun hr => by
+      have hcf : st.cont = false := by
+        rcases hor with h' | h'
+        · rw [hleafraw hr] at h'; cases h'
+        · exact h'
+      rw [((hrc hr).2 hcf).1]
+      exact (hc1.inv.nrb be.node).2.1 (by rw [hkind]; exact hr))
+  · by_cases hr : isRaw be.bp.kind = true
+    · have hcf : st.cont = false := by
+        rcases hor with h' | h'
+        · rw [hleafraw hr] at h'; cases h'
+        · exact h'
+      exact ((hrc hr).2 hcf).2 c2 hri4
+    · have pureC : (pure stClose : M PState) s = .ok (st, s') → PadL Lb c2 := fun e' => by
+        obtain ⟨_, hs4⟩ := opure_ok e'
+        rw [hs4] at hri4
+        exact padl_of_ri_ri hr1 hri4 hpl
+      cases hbp : be.bp <;> rw [hbp] at h4 hr hnl hnp
+      case setext => exact pureC h4
+      case thematic => exact pureC h4
+      case list => exact absurd rfl hnl.1
+      case listItem => exact absurd rfl hnl.2
+      case code => exact absurd rfl hr
+      case atx => exact pureC h4
+      case fenced => exact absurd rfl hr
+      case blockquote =>
+        have e' : blockquoteContinue be.node s = .ok (st, s') := h4
+        unfold blockquoteContinue at e'
+        obtain ⟨b, s5, h5, k5⟩ := obind_ok e'
+        obtain ⟨r5, c5, hs5, hri5, hle5, hb1, hb2⟩ := (blockquoteProcess_okl hr1).of_ok h5
+        have hs45 : s' = s5 := by
+          split at k5
+          · exact (opure_ok k5).2
+          · exact (opure_ok k5).2
+        rw [hs45, hs5] at hri4
+        refine padl_of_ri_ri hri5 hri4 ?_
+        cases b with
+        | true => intro _; have := hb1 rfl; omega
+        | false => rw [hb2 rfl]; exact hpl
+      case html => exact absurd rfl hr
+      case paragraph => exact absurd rfl hnp
+
 namespace L
 
 section run
@@ -69,18 +135,18 @@ theorem lineLoop_ord {root : Nat} (parent : Nat) (hroot : parent = root) (ob : L
       (x : LineOutcome × List LineStat) (s' : St), ob = pre ++ rest → i = (pre.length : Int) →
       s.pc.opened = ob → RI src s.r c → PadOK c → StableL src root s →
       (∀ Lk, pre.getLast? = some Lk → Lk.bp = .list → ListHint src s c Lk.node) →
-      Inv src Lb s → Lb ≤ c.p →
+      Inv src Lb s → Lb ≤ c.p → PadL Lb c →
       lineLoop parent ob li rest i bl s = .ok (x, s') → Dirty src s' := by
   intro rest
   induction rest with
   | nil =>
-    intro pre i bl s c x s' _ _ _ hri hpad _ _ hinv hle h
+    intro pre i bl s c x s' _ _ _ hri hpad _ _ hinv hle hpl h
     unfold lineLoop at h
     obtain ⟨_, hs⟩ := opure_ok h
     subst s'
-    exact (Clean.mk hinv hri hpad hle).dirty
+    exact (Clean.mk hinv hri hpad hle hpl).dirty
   | cons be rest ih =>
-    intro pre i bl s c x s' hob hi hop hri hpad hst hhint hinv hle h
+    intro pre i bl s c x s' hob hi hop hri hpad hst hhint hinv hle hpl h
     unfold lineLoop at h
     obtain ⟨y, s1, h1, k1⟩ := obind_ok h
     obtain ⟨rfl, r1, hs1, hr1⟩ := peekLine_inv hri h1
@@ -88,7 +154,7 @@ theorem lineLoop_ord {root : Nat} (parent : Nat) (hroot : parent = root) (ob : L
     dsimp only at k1
     have hst1 : StableL src root { s with r := r1 } := hst.congr rfl rfl rfl rfl
     have hhint1 : ∀ Lk, pre.getLast? = some Lk → Lk.bp = .list → ListHint src { s with r := r1 } c Lk.node := hhint
-    have hc1 : Clean src Lb { s with r := r1 } c := ⟨hinv.congr_r r1, hr1, hpad, hle⟩
+    have hc1 : Clean src Lb { s with r := r1 } c := ⟨hinv.congr_r r1, hr1, hpad, hle, hpl⟩
     cases hv : RCur.view src c with
     | none =>
       rw [hv] at k1
@@ -124,7 +190,8 @@ theorem lineLoop_ord {root : Nat} (parent : Nat) (hroot : parent = root) (ob : L
           (be.bp.isContainer = true → st.cont = true → st.hasChildren = true) →
           (be.bp.isContainer = false → st.hasChildren = false) →
           (st.cont = true → ∀ Lk, (pre ++ [be]).getLast? = some Lk → Lk.bp = .list → ListHint src s2 c2 Lk.node) →
-          Dirty src s2 → (RI src s2.r c2 → Inv src Lb s2 ∧ Lb ≤ c2.p) →
+          Dirty src s2 →
+          ((st.hasChildren = true ∨ st.cont = false) → RI src s2.r c2 → Inv src Lb s2 ∧ Lb ≤ c2.p ∧ PadL Lb c2) →
           (st.cont = false → RI src s2.r c2 → K s2 = .ok (x, s') → Dirty src s') →
           (if st.cont = true then
               if (st.hasChildren && i == li) = true then
@@ -144,9 +211,9 @@ theorem lineLoop_ord {root : Nat} (parent : Nat) (hroot : parent = root) (ob : L
               rcases hcase2 with ⟨_, h⟩ | h
               · rw [hch.1] at h; cases h
               · exact h
-            obtain ⟨m1, m2⟩ := hmine hri2
+            obtain ⟨m1, m2, m3⟩ := hmine (.inl hch.1) hri2
             obtain ⟨res, s3, h3', k3'⟩ := obind_ok e
-            have hd3 := openBlocks_ord (src := src) Lb be.node blankv s2 c2 res s3 ⟨m1, hri2, hpad2, m2⟩ h3'
+            have hd3 := openBlocks_ord (src := src) Lb be.node blankv s2 c2 res s3 ⟨m1, hri2, hpad2, m2, m3⟩ h3'
             obtain ⟨_, hs⟩ := opure_ok k3'
             subst s'
             exact hd3
@@ -156,9 +223,9 @@ theorem lineLoop_ord {root : Nat} (parent : Nat) (hroot : parent = root) (ob : L
                 rcases hcase2 with ⟨_, h⟩ | h
                 · rw [hhc] at h; cases h
                 · exact h
-              obtain ⟨m1, m2⟩ := hmine hri2
+              obtain ⟨m1, m2, m3⟩ := hmine (.inl hhc) hri2
               exact ih (pre ++ [be]) (i + 1) _ s2 c2 x s' (by rw [hob]; simp) (by simp; omega) hop2 hri2 hpad2 hst2
-                (hhint2 hcont) m1 m2 e
+                (hhint2 hcont) m1 m2 m3 e
             · have hbec : be.bp.isContainer = false := by
                 cases hc : be.bp.isContainer with
                 | false => rfl
@@ -180,8 +247,8 @@ theorem lineLoop_ord {root : Nat} (parent : Nat) (hroot : parent = root) (ob : L
             · exact h
           exact hK (by simpa using hcont) hri2 e
       -- the fall-through continuation from a clean state
-      have useF : ∀ (s2 : St) (c2 : RCur) (blank : Bool) (bl' : List LineStat), Inv src Lb s2 → Lb ≤ c2.p → PadOK c2 →
-          RI src s2.r c2 →
+      have useF : ∀ (s2 : St) (c2 : RCur) (blank : Bool) (bl' : List LineStat), Inv src Lb s2 → Lb ≤ c2.p → PadL Lb c2 →
+          PadOK c2 → RI src s2.r c2 →
           (if (i != 0) = true then do
               let b ← liftE (blockAt ob (i - 1))
               let thisParent ← pure b.node
@@ -209,7 +276,8 @@ theorem lineLoop_ord {root : Nat} (parent : Nat) (hroot : parent = root) (ob : L
                       i
                   pure (LineOutcome.next, bl')
                 else pure (LineOutcome.next, bl') : M _) s2 = .ok (x, s') → Dirty src s' :=
-        fun s2 c2 blank bl' m1 m2 hp2 hri2 e => lineF_ord Lb parent ob li i blank bl' s2 c2 x s' ⟨m1, hri2, hp2, m2⟩ e
+        fun s2 c2 blank bl' m1 m2 m3 hp2 hri2 e =>
+          lineF_ord Lb parent ob li i blank bl' s2 c2 x s' ⟨m1, hri2, hp2, m2, m3⟩ e
       split at k3
       · next hkind =>
         obtain ⟨st, s4, h4, k4⟩ := obind_ok k3
@@ -243,8 +311,9 @@ theorem lineLoop_ord {root : Nat} (parent : Nat) (hroot : parent = root) (ob : L
           have hri2' : RI src s4.r c := by rw [hr2]; exact hri2
           have hinv4 : Inv src Lb s4 := hc1.inv.of_same hn2 ho2 ht2
           refine after _ st s4 c _ _ hst2 (by rw [ho2]; exact hop) hpad (.inr hri2') (fun _ => hcc2)
-            (fun hc => by rw [hbl] at hc; cases hc) ?_ (Clean.mk hinv4 hri2' hpad hle).dirty (fun _ => ⟨hinv4, hle⟩)
-            (fun _ hri2'' e => useF s4 c _ _ hinv4 hle hpad hri2'' e) k4
+            (fun hc => by rw [hbl] at hc; cases hc) ?_ (Clean.mk hinv4 hri2' hpad hle hpl).dirty
+            (fun _ _ => ⟨hinv4, hle, hpl⟩)
+            (fun _ hri2'' e => useF s4 c _ _ hinv4 hle hpl hpad hri2'' e) k4
           intro hcont Lk hLk hLkl
           rw [List.getLast?_concat] at hLk
           cases hLk
@@ -309,9 +378,12 @@ theorem lineLoop_ord {root : Nat} (parent : Nat) (hroot : parent = root) (ob : L
             have hst2 : StableL src root s4 := hst1.congr hn2 ho2 ht2 hf2
             have hinv4 : Inv src Lb s4 := hc1.inv.of_same hn2 ho2 ht2
             have hle4 : Lb ≤ c2.p := by omega
+            have hpl4 : PadL Lb c2 :=
+              listItemContinue_padl hr1 hp hle hpl (lastNode root pre) hparL hkk hoff h4' c2 hri2
             refine after _ st s4 c2 _ _ hst2 (by rw [ho2]; exact hop) hpad2 (.inr hri2) (fun _ => hcc2)
-              (fun hc => by rw [hbi] at hc; cases hc) ?_ (Clean.mk hinv4 hri2 hpad2 hle4).dirty (fun _ => ⟨hinv4, hle4⟩)
-              (fun _ hri2'' e => useF s4 c2 _ _ hinv4 hle4 hpad2 hri2'' e) k4
+              (fun hc => by rw [hbi] at hc; cases hc) ?_ (Clean.mk hinv4 hri2 hpad2 hle4 hpl4).dirty
+              (fun _ _ => ⟨hinv4, hle4, hpl4⟩)
+              (fun _ hri2'' e => useF s4 c2 _ _ hinv4 hle4 hpl4 hpad2 hri2'' e) k4
             intro _ Lk' hLk' hLkl'
             rw [List.getLast?_concat] at hLk'
             cases hLk'
@@ -329,23 +401,76 @@ theorem lineLoop_ord {root : Nat} (parent : Nat) (hroot : parent = root) (ob : L
             obtain ⟨c2, hria2, hpad2, hle2, _, hcase2⟩ := h2c.ria
             have hst2 : StableL src root s4 :=
               hst1.same h2c.ext h2c.nodes hts2 (by rw [h2c.pc]) (by rw [h2c.pc]) (by rw [h2c.pc])
-            have hinvB : ∀ B, Inv src B { s with r := r1 } → Inv src B s4 := fun B hB =>
-              bpContinue_inv be.bp be.node hB c hr1 hnl hnp hbeok.kind h2c.pc h2c.nodes h4
-            have hinv4 : Inv src Lb s4 := hinvB Lb hc1.inv
+            -- what a raw leaf appends
+            have hrc : isRaw be.bp.kind = true → RawC src Lb (lineEnd src c.p : Int) be.node { s with r := r1 } s4 st :=
+              fun hr => bpContinue_rawC be.bp be.node hr hr1 hp hle hpl (fun f hf => (hst1.keys.fence f hf).2.1) h4
+            have hge := lineEnd_ge src hri.inRange
+            have h04 : ∀ t ∈ (nd s4 be.node).lines, 0 ≤ t.start := fun t ht =>
+              ((nodeOK_nd h2c.nodes be.node).lines t ht).1
+            have hinvE : Inv src (lineEnd src c.p : Int) s4 :=
+              bpContinue_inv be.bp be.node hc1.invE c hr1 hnl hnp hbeok.kind h2c.pc h2c.nodes h4 (fun hr =>
+                (hrc hr).1.nodeR ((hc1.inv.nrb be.node).2.1 (by rw [hbeok.kind]; exact hr)) (by omega) h04)
+            have hleafraw : isRaw be.bp.kind = true → st.hasChildren = false := fun hr => h2c.leaf (by
+              cases hbp : be.bp <;> rw [hbp] at hr <;> first | rfl | exact absurd hr (by decide))
+            have hinv4 : (st.hasChildren = true ∨ st.cont = false) → Inv src Lb s4 := fun hor =>
+              bpContinue_inv be.bp be.node hc1.inv c hr1 hnl hnp hbeok.kind h2c.pc h2c.nodes h4 (fun hr => by
+                have hcf : st.cont = false := by
+                  rcases hor with h' | h'
+                  · rw [hleafraw hr] at h'; cases h'
+                  · exact h'
+                rw [((hrc hr).2 hcf).1]
+                exact (hc1.inv.nrb be.node).2.1 (by rw [hbeok.kind]; exact hr))
             have hle4 : Lb ≤ c2.p := by omega
+            -- the padding after `Continue`: only a block quote moves the reader and goes on
+            have hpl4 : (st.hasChildren = true ∨ st.cont = false) → RI src s4.r c2 → PadL Lb c2 := by
+              intro hor hri4
+              by_cases hr : isRaw be.bp.kind = true
+              · have hcf : st.cont = false := by
+                  rcases hor with h' | h'
+                  · rw [hleafraw hr] at h'; cases h'
+                  · exact h'
+                exact ((hrc hr).2 hcf).2 c2 hri4
+              · have pureC : (pure stClose : M PState) { s with r := r1 } = .ok (st, s4) → PadL Lb c2 := fun e' => by
+                  obtain ⟨_, hs4⟩ := opure_ok e'
+                  rw [hs4] at hri4
+                  exact padl_of_ri_ri hr1 hri4 hpl
+                cases hbp : be.bp <;> rw [hbp] at h4 hr hnl hnp
+                case setext => exact pureC h4
+                case thematic => exact pureC h4
+                case list => exact absurd rfl hnl.1
+                case listItem => exact absurd rfl hnl.2
+                case code => exact absurd rfl hr
+                case atx => exact pureC h4
+                case fenced => exact absurd rfl hr
+                case blockquote =>
+                  have e' : blockquoteContinue be.node { s with r := r1 } = .ok (st, s4) := h4
+                  unfold blockquoteContinue at e'
+                  obtain ⟨b, s5, h5, k5⟩ := obind_ok e'
+                  obtain ⟨r5, c5, hs5, hri5, hle5, hb1, hb2⟩ := (blockquoteProcess_okl hr1).of_ok h5
+                  have hs45 : s4 = s5 := by
+                    split at k5
+                    · exact (opure_ok k5).2
+                    · exact (opure_ok k5).2
+                  rw [hs45, hs5] at hri4
+                  refine padl_of_ri_ri hri5 hri4 ?_
+                  cases b with
+                  | true => intro _; have := hb1 rfl; omega
+                  | false => rw [hb2 rfl]; exact hpl
+                case html => exact absurd rfl hr
+                case paragraph => exact absurd rfl hnp
             have hstop4 : Stop src (lineEnd src c.p : Int) s4 := by
               have := (bpContinue_pres (stop_prims src (lineEnd src c.p : Int)) be.bp be.node).h _
                 (RI.stop (s := { s with r := r1 }) hr1)
               rw [h4] at this; exact this
             refine after _ st s4 c2 _ _ hst2 (by rw [h2c.pc]; exact hop) hpad2 hcase2 h2c.cont h2c.leaf ?_
-              ⟨_, hinvB _ hc1.invE, hstop4⟩ (fun _ => ⟨hinv4, hle4⟩)
-              (fun _ hri2'' e => useF s4 c2 _ _ hinv4 hle4 hpad2 hri2'' e) k4
+              ⟨_, hinvE, hstop4⟩ (fun hor hri4 => ⟨hinv4 hor, hle4, hpl4 hor hri4⟩)
+              (fun hcf hri2'' e => useF s4 c2 _ _ (hinv4 (.inr hcf)) hle4 (hpl4 (.inr hcf) hri2'') hpad2 hri2'' e) k4
             intro _ Lk' hLk' hLkl'
             rw [List.getLast?_concat] at hLk'
             cases hLk'
             exact absurd hLkl' hbl
       · rw [if_neg (by decide)] at k3
-        exact useF { s with r := r1 } c _ _ hc1.inv hle hpad hr1 k3
+        exact useF { s with r := r1 } c _ _ hc1.inv hle hpl hpad hr1 k3
 
 
 omit lsp in
@@ -378,15 +503,16 @@ theorem dirty_next {s : St} {c : RCur} (hd : Dirty src s) (hria : RIa src s.r c)
     reader and all lines ending at or before the cursor -/
 theorem linesLoop_ord {root : Nat} (parent : Nat) (hroot : parent = root) :
     ∀ (fuel : Nat) (bl : List LineStat) (s : St) (c : RCur) (x : Bool × List LineStat) (s' : St),
-      RI src s.r c → PadOK c → StableL src root s → Inv src (c.p : Int) s →
+      RI src s.r c → PadOK c → StableL src root s → Inv src (c.p : Int) s → c.pad = 0 →
       linesLoop parent fuel bl s = .ok (x, s') →
       (x.1 = true → Dirty src s') ∧
-      (x.1 = false → ∃ c', RI src s'.r c' ∧ PadOK c' ∧ StableL src root s' ∧ s'.pc.opened = [] ∧ Inv src (c'.p : Int) s') := by
+      (x.1 = false → ∃ c', RI src s'.r c' ∧ PadOK c' ∧ StableL src root s' ∧ s'.pc.opened = [] ∧
+        Inv src (c'.p : Int) s' ∧ c'.pad = 0) := by
   intro fuel
   induction fuel with
-  | zero => intro bl s c x s' _ _ _ _ h; unfold linesLoop at h; cases h
+  | zero => intro bl s c x s' _ _ _ _ _ h; unfold linesLoop at h; cases h
   | succ fuel ih =>
-    intro bl s c x s' hri hpad hst hinv h
+    intro bl s c x s' hri hpad hst hinv hp0 h
     unfold linesLoop at h
     obtain ⟨pc, s0, h0, k0⟩ := obind_ok h
     obtain ⟨hpc, hs0⟩ := ogetPc_ok h0
@@ -398,14 +524,15 @@ theorem linesLoop_ord {root : Nat} (parent : Nat) (hroot : parent = root) :
       obtain ⟨hx, hs⟩ := opure_ok k0
       subst s'
       subst x
-      refine ⟨(fun h => by cases h), fun _ => ⟨c, hri, hpad, hst, ?_, hinv⟩⟩
+      refine ⟨(fun h => by cases h), fun _ => ⟨c, hri, hpad, hst, ?_, hinv, hp0⟩⟩
       exact List.length_eq_zero_iff.1 (by simpa using hl)
     · obtain ⟨y, s1, h1, k1⟩ := obind_ok k0
       have hll := (lineLoopL lsp parent hroot s.pc.opened ((s.pc.opened.length : Int) - 1) rfl s.pc.opened [] 0 bl s c
         (by simp) (by simp) rfl hri hpad hst (fun Lk h => by simp at h)).of_ok h1
       obtain ⟨c1, hria1, hst1⟩ := hll
       have hd1 := lineLoop_ord lsp parent hroot s.pc.opened ((s.pc.opened.length : Int) - 1) rfl (c.p : Int)
-        s.pc.opened [] 0 bl s c y s1 (by simp) (by simp) rfl hri hpad hst (fun Lk h => by simp at h) hinv (Int.le_refl _) h1
+        s.pc.opened [] 0 bl s c y s1 (by simp) (by simp) rfl hri hpad hst (fun Lk h => by simp at h) hinv (Int.le_refl _)
+        (fun hne => absurd hp0 hne) h1
       obtain ⟨outcome, bl1⟩ := y
       cases outcome with
       | eof =>
@@ -419,13 +546,13 @@ theorem linesLoop_ord {root : Nat} (parent : Nat) (hroot : parent = root) :
         obtain ⟨_, s2, h2, k2⟩ := obind_ok k1
         have e2 : s2 = { s1 with r := s1.r.advanceLine } := by cases h2; rfl
         subst s2
-        exact ih bl1 _ _ x s' (advanceLine_ria hria1) (padOK_advanceLine c1) (hst1.congr_r _) (dirty_next hd1 hria1) k2
+        exact ih bl1 _ _ x s' (advanceLine_ria hria1) (padOK_advanceLine c1) (hst1.congr_r _) (dirty_next hd1 hria1) rfl k2
 
 omit lsp in
 /-- `SkipBlankLines` only moves the cursor forward -/
 theorem skipBlankLines_mono : ∀ (fuel : Nat) (lines : Int) (r : Reader) (c : RCur) (x : Segment × Int × Bool) (r' : Reader),
     RI src r c → PadOK c → skipBlankLines readerOps fuel lines r = .ok (x, r') →
-    ∃ c', RI src r' c' ∧ PadOK c' ∧ c.p ≤ c'.p := by
+    ∃ c', RI src r' c' ∧ PadOK c' ∧ c.p ≤ c'.p ∧ (c.pad = 0 → c'.pad = 0) := by
   intro fuel
   induction fuel with
   | zero => intro _ _ _ _ _ _ _ h; cases h
@@ -439,34 +566,35 @@ theorem skipBlankLines_mono : ∀ (fuel : Nat) (lines : Int) (r : Reader) (c : R
       rw [hv] at h
       simp only [] at h
       cases h
-      exact ⟨c, h1, hpad, Nat.le_refl _⟩
+      exact ⟨c, h1, hpad, Nat.le_refl _, fun h => h⟩
     | some l =>
       rw [hv] at h
       simp only [] at h
       by_cases hb : isBlank l = true
       · rw [if_pos hb] at h
-        obtain ⟨c', a1, a2, a3⟩ := ih (lines + 1) r1.advanceLine _ x r' (ri_advanceLine h1) (padOK_advanceLine c) h
-        refine ⟨c', a1, a2, ?_⟩
+        obtain ⟨c', a1, a2, a3, a4⟩ := ih (lines + 1) r1.advanceLine _ x r' (ri_advanceLine h1) (padOK_advanceLine c) h
+        refine ⟨c', a1, a2, ?_, fun _ => a4 rfl⟩
         have := lineEnd_ge src hri.inRange
         have e : (RCur.advanceLine src c).p = lineEnd src c.p := rfl
         omega
       · rw [if_neg hb] at h
         cases h
-        exact ⟨c, h1, hpad, Nat.le_refl _⟩
+        exact ⟨c, h1, hpad, Nat.le_refl _, fun h => h⟩
 
 /-- the outer loop of parseBlocks (parser.go:1055-1127) -/
 theorem blocksLoop_ord {root : Nat} (parent : Nat) (hroot : parent = root) :
     ∀ (fuel : Nat) (bl : List LineStat) (s : St) (c : RCur) (s' : St), RI src s.r c → PadOK c → StableL src root s →
-      s.pc.opened = [] → Inv src (c.p : Int) s → blocksLoop parent fuel bl s = .ok ((), s') → ∃ E, Inv src E s' := by
+      s.pc.opened = [] → Inv src (c.p : Int) s → c.pad = 0 → blocksLoop parent fuel bl s = .ok ((), s') →
+      ∃ E, Inv src E s' := by
   intro fuel
   induction fuel with
-  | zero => intro _ _ _ _ _ _ _ _ _ h; unfold blocksLoop at h; cases h
+  | zero => intro _ _ _ _ _ _ _ _ _ _ h; unfold blocksLoop at h; cases h
   | succ fuel ih =>
-    intro bl s c s' hri hpad hst hemp hinv h
+    intro bl s c s' hri hpad hst hemp hinv hp0 h
     unfold blocksLoop at h
     obtain ⟨y, s1, h1, k1⟩ := obind_ok h
     -- SkipBlankLines
-    have hskip : ∃ r1 c1, s1 = { s with r := r1 } ∧ RI src r1 c1 ∧ PadOK c1 ∧ c.p ≤ c1.p := by
+    have hskip : ∃ r1 c1, s1 = { s with r := r1 } ∧ RI src r1 c1 ∧ PadOK c1 ∧ c.p ≤ c1.p ∧ c1.pad = 0 := by
       unfold skipBlankLinesR at h1
       cases hsk : skipBlankLines readerOps (loopFuel s.r.source) 0 s.r with
       | error e => rw [hsk] at h1; simp [bind, Except.bind] at h1
@@ -474,9 +602,9 @@ theorem blocksLoop_ord {root : Nat} (parent : Nat) (hroot : parent = root) :
         rw [hsk] at h1
         simp only [bind, Except.bind, pure, Except.pure] at h1
         cases h1
-        obtain ⟨c1, a1, a2, a3⟩ := skipBlankLines_mono (src := src) _ _ _ c p.1 p.2 hri hpad hsk
-        exact ⟨p.2, c1, rfl, a1, a2, a3⟩
-    obtain ⟨r1, c1, hs1, hri1, hpad1, hle1⟩ := hskip
+        obtain ⟨c1, a1, a2, a3, a4⟩ := skipBlankLines_mono (src := src) _ _ _ c p.1 p.2 hri hpad hsk
+        exact ⟨p.2, c1, rfl, a1, a2, a3, a4 hp0⟩
+    obtain ⟨r1, c1, hs1, hri1, hpad1, hle1, hp1⟩ := hskip
     subst s1
     obtain ⟨seg, lines, ok⟩ := y
     have hst1 := hst.congr_r r1
@@ -510,7 +638,7 @@ theorem blocksLoop_ord {root : Nat} (parent : Nat) (hroot : parent = root) :
         ⟨hw2.nodes, hw2.keys, hw2.blocks, by rw [hop2]; exact hleafy2, hw2.ls, by rw [hop2]; simpa using hw2.chain,
           by rw [hop2]; simpa using hend2⟩
       have hd4 := openBlocks_ord (src := src) (c1.p : Int) parent _ { s with r := r1 } c1 res s4
-        ⟨hinv1, hri1, hpad1, Int.le_refl _⟩ h4
+        ⟨hinv1, hri1, hpad1, Int.le_refl _, fun hne => absurd hp1 hne⟩ h4
       split at k4
       · obtain ⟨_, hs⟩ := opure_ok k4
         subst s'
@@ -524,7 +652,7 @@ theorem blocksLoop_ord {root : Nat} (parent : Nat) (hroot : parent = root) :
         have hpad5 := padOK_advanceLine (src := src) c2
         have hst5 := hst2.congr_r s4.r.advanceLine
         have hinv5 := dirty_next hd4 hria2
-        obtain ⟨q1, q2⟩ := linesLoop_ord lsp parent hroot fuel _ _ _ z s6 hri5 hpad5 hst5 hinv5 h6
+        obtain ⟨q1, q2⟩ := linesLoop_ord lsp parent hroot fuel _ _ _ z s6 hri5 hpad5 hst5 hinv5 rfl h6
         obtain ⟨ret, bl3⟩ := z
         dsimp only at k6
         split at k6
@@ -534,8 +662,8 @@ theorem blocksLoop_ord {root : Nat} (parent : Nat) (hroot : parent = root) :
           obtain ⟨E, hE, _⟩ := q1 hret
           exact ⟨E, hE⟩
         · next hret =>
-          obtain ⟨c3, hri3, hpad3, hst3, hemp3, hinv3⟩ := q2 (by simpa using hret)
-          exact ih bl3 s6 c3 s' hri3 hpad3 hst3 hemp3 hinv3 k6
+          obtain ⟨c3, hri3, hpad3, hst3, hemp3, hinv3, hp3⟩ := q2 (by simpa using hret)
+          exact ih bl3 s6 c3 s' hri3 hpad3 hst3 hemp3 hinv3 hp3 k6
 
 /-- **the order clause, for every source**: when the block phase ends normally, in the final store the lines of every
     block that is not raw increase -/
@@ -570,10 +698,10 @@ theorem run_ordered_aux (s : St) (h : run src = .ok s) : ∃ E, Inv src E s := b
     · show (nd _ (lastNode 0 [])).kind ≠ .list
       rw [lastNode_nil, hnd0]; decide
   have hinv0 : Inv src ((RCur.init).p : Int) { (initSt src) with pc := { (initSt src).pc with opened := [] } } := by
-    refine ⟨fun i _ => ?_, fun i hk => ?_, fun i hk => ?_, fun t ht => ?_, fun b hb => ?_, hnodes0⟩
+    refine ⟨fun i => ?_, fun i hk => ?_, fun i hk => ?_, fun t ht => ?_, fun b hb => ?_, hnodes0⟩
     · rw [hnd0]; split
-      · exact ⟨trivial, Below.nil _, fun t ht => by cases ht⟩
-      · exact ⟨trivial, Below.nil _, fun t ht => by cases ht⟩
+      · exact NodeB.nil _ rfl
+      · exact NodeB.nil _ rfl
     · rw [hnd0] at hk; split at hk <;> cases hk
     · rw [hnd0] at hk; split at hk <;> cases hk
     · simp [initSt] at ht
@@ -589,7 +717,7 @@ theorem run_ordered_aux (s : St) (h : run src = .ok s) : ∃ E, Inv src E s := b
     subst hs
     exact blocksLoop_ord lsp 0 rfl (linesFuel (initSt src).r.source) []
       { (initSt src) with pc := { (initSt src).pc with opened := [] } } RCur.init s1 (ri_init src)
-      (fun h => absurd rfl h) hinit rfl hinv0 hb
+      (fun h => absurd rfl h) hinit rfl hinv0 rfl hb
 
 end run
 
@@ -604,7 +732,25 @@ theorem run_ordered (src : Bytes) (s : St) (h : run src = .ok s) :
   obtain ⟨E, hE⟩ := L.run_ordered_aux (lsp_all src) s h
   intro n hn hr
   obtain ⟨i, _, rfl⟩ := mem_nodes_nd hn
-  exact (hE.nrb i hr).1
+  exact ((hE.nrb i).1 hr).1
+
+/-- **C05(c), order clause for the three raw kinds, for every byte string**: in the final store the line segments of
+    every CodeBlock, FencedCodeBlock and HTMLBlock increase as well. -/
+theorem run_ordered_raw (src : Bytes) (s : St) (h : run src = .ok s) :
+    ∀ n ∈ s.nodes, isRaw n.kind = true → OrdFrom 0 n.lines := by
+  obtain ⟨E, hE⟩ := L.run_ordered_aux (lsp_all src) s h
+  intro n hn hr
+  obtain ⟨i, _, rfl⟩ := mem_nodes_nd hn
+  exact ((hE.nrb i).2.1 hr).1
+
+/-- **Document, Blockquote, List, ListItem and ThematicBreak nodes carry no lines**, for every byte string: in the final
+    store of the block phase their line lists are empty (no parser ever appends to them). -/
+theorem run_no_lines (src : Bytes) (s : St) (h : run src = .ok s) :
+    ∀ n ∈ s.nodes, noLinesKind n.kind = true → n.lines = [] := by
+  obtain ⟨E, hE⟩ := L.run_ordered_aux (lsp_all src) s h
+  intro n hn hr
+  obtain ⟨i, _, rfl⟩ := mem_nodes_nd hn
+  exact (hE.nrb i).2.2 hr
 
 /-- **every segment of a non-raw block is non-empty and has no ForceNewline, for every byte string** -/
 theorem run_segs_nonempty (src : Bytes) (s : St) (h : run src = .ok s) :
@@ -612,7 +758,7 @@ theorem run_segs_nonempty (src : Bytes) (s : St) (h : run src = .ok s) :
   obtain ⟨E, hE⟩ := L.run_ordered_aux (lsp_all src) s h
   intro n hn hr
   obtain ⟨i, _, rfl⟩ := mem_nodes_nd hn
-  exact (hE.nrb i hr).2.2
+  exact ((hE.nrb i).1 hr).2.2
 
 /-- **the lines of every non-raw block that has lines are well formed** (`WFSegs`, GM.Spec.Cursor: a non-empty list of
     non-empty segments inside the source that increase, padding ≥ 0, no ForceNewline) — what
